@@ -196,7 +196,7 @@ def finish (s : St) : String :=
         let flat := (c.ft.prevSibling j true).map fun i => ((c.ft.node i).info.raw.data, (c.ft.node i).info.alias)
         if decide (flat = exp) then n else n + 1
       | none => n + 1
-    s!"{s.id} corr={r.corrFails.render} judge={r.fails.render} asked={r.asked} ported={r.portCompared} vis={c.ft.size} raw={js.rawNodes} fanout={s.fanout} hiddenvis={js.hiddenWithVisible} alias={js.aliases} extra={js.extras} err={js.errors} missing={js.missing} zerowidth={js.zeroWidth} multiline={js.multiline} fields={fields} sexpok={if (sexpOKKids lang d.root.kids d.root.data.productionId 0 || hasHiddenMissing lang d.root 0) && !(lang.symMeta 0).visible then 1 else 0} stackbad={r.stackBad} anonleafok={if anonLeafOKKids lang d.root.kids d.root.data.productionId 0 then 1 else 0} hiddenextraok={if hiddenExtraOKKids lang d.root.kids d.root.data.productionId 0 then 1 else 0} hiddenmissing={if hasHiddenMissing lang d.root 0 then 1 else 0} parchk={ph.checked} parzw={ph.zeroWidth} parbad={ph.bad} parflat={flatBad} nschk={sh.checked} nsout={sh.outside} nsbad={sh.bad} nsflat={nsFlatBad} pschk={sh.pchecked} psout={sh.poutside} psbad={sh.pbad} psflat={psFlatBad} fcbchk={fcb.1} fcbout={fcb.2.1} fcbbad={fcb.2.2.1} fcbflat={fcb.2.2.2} dfrchk={dfr.1} dfrbad={dfr.2.1} dfrflat={dfr.2.2} nfcbchk={nfcb.1} nfcbout={nfcb.2.1} nfcbbad={nfcb.2.2.1} nfcbflat={nfcb.2.2.2} ndfrchk={vdfr.1} ndfrbad={vdfr.2.1} ndfrflat={vdfr.2.2.1} pdfrchk={vdfr.2.2.2.1} pdfrbad={vdfr.2.2.2.2.1} pdfrflat={vdfr.2.2.2.2.2} cbfchk={cbf.1} cbfout={cbf.2.1} cbfbad={cbf.2.2.1} cbfflat={cbf.2.2.2.1} cbfskip={cbf.2.2.2.2} fmsorted={if (s.sorted.get? s.lang).getD false then 1 else 0} cfcchk={r.cfcChk} cfcout={r.cfcOut} cfcbad={r.cfcBad} cfcflat={r.cfcFlat} nnschk={sh.nnchecked} nnsout={sh.nnoutside} nnsbad={sh.nnbad} nnsflat={nnFlatBad} npschk={sh.npchecked} npsout={sh.npoutside} npsbad={sh.npbad} npsflat={npFlatBad} znschk={sh.zchecked} znsout={sh.zoutside} znsbad={sh.zbad} zpschk={sh.zpchecked} zpsout={sh.zpoutside} zpsbad={sh.zpbad} pgenbad={sh.pgenbad} znsoutpar={sh.zwhy.1} znsoutfollow={sh.zwhy.2.1} znsoutzw={sh.zwhy.2.2.1} zpsoutpar={sh.zwhy.2.2.2.1} zpsoutid={sh.zwhy.2.2.2.2.1} zpsoutzw={sh.zwhy.2.2.2.2.2} kind={s.kind}"
+    s!"{s.id} corr={r.corrFails.render} judge={r.fails.render} asked={r.asked} ported={r.portCompared} vis={c.ft.size} raw={js.rawNodes} fanout={s.fanout} hiddenvis={js.hiddenWithVisible} alias={js.aliases} extra={js.extras} err={js.errors} missing={js.missing} zerowidth={js.zeroWidth} multiline={js.multiline} fields={fields} sexpok={if (sexpOKKids lang d.root.kids d.root.data.productionId 0 || hasHiddenMissing lang d.root 0) && !(lang.symMeta 0).visible then 1 else 0} stackbad={r.stackBad} anonleafok={if anonLeafOKKids lang d.root.kids d.root.data.productionId 0 then 1 else 0} hiddenextraok={if hiddenExtraOKKids lang d.root.kids d.root.data.productionId 0 then 1 else 0} hiddenmissing={if hasHiddenMissing lang d.root 0 then 1 else 0} parchk={ph.checked} parzw={ph.zeroWidth} parbad={ph.bad} parflat={flatBad} nschk={sh.checked} nsout={sh.outside} nsbad={sh.bad} nsflat={nsFlatBad} pschk={sh.pchecked} psout={sh.poutside} psbad={sh.pbad} psflat={psFlatBad} fcbchk={fcb.1} fcbout={fcb.2.1} fcbbad={fcb.2.2.1} fcbflat={fcb.2.2.2} dfrchk={dfr.1} dfrbad={dfr.2.1} dfrflat={dfr.2.2} nfcbchk={nfcb.1} nfcbout={nfcb.2.1} nfcbbad={nfcb.2.2.1} nfcbflat={nfcb.2.2.2} ndfrchk={vdfr.1} ndfrbad={vdfr.2.1} ndfrflat={vdfr.2.2.1} pdfrchk={vdfr.2.2.2.1} pdfrbad={vdfr.2.2.2.2.1} pdfrflat={vdfr.2.2.2.2.2} cbfchk={cbf.1} cbfout={cbf.2.1} cbfbad={cbf.2.2.1} cbfflat={cbf.2.2.2.1} cbfskip={cbf.2.2.2.2} fmsorted={if (s.sorted.get? s.lang).getD false then 1 else 0} cfcchk={r.cfcChk} cfcout={r.cfcOut} cfcbad={r.cfcBad} cfcflat={r.cfcFlat} cparchk={r.cparChk} cparbad={r.cparBad} nnschk={sh.nnchecked} nnsout={sh.nnoutside} nnsbad={sh.nnbad} nnsflat={nnFlatBad} npschk={sh.npchecked} npsout={sh.npoutside} npsbad={sh.npbad} npsflat={npFlatBad} znschk={sh.zchecked} znsout={sh.zoutside} znsbad={sh.zbad} zpschk={sh.zpchecked} zpsout={sh.zpoutside} zpsbad={sh.zpbad} pgenbad={sh.pgenbad} znsoutpar={sh.zwhy.1} znsoutfollow={sh.zwhy.2.1} znsoutzw={sh.zwhy.2.2.1} zpsoutpar={sh.zwhy.2.2.2.1} zpsoutid={sh.zwhy.2.2.2.2.1} zpsoutzw={sh.zwhy.2.2.2.2.2} kind={s.kind}"
   | _, _, _ => s!"{s.id} corr=BADINPUT judge=BADINPUT asked=0"
 
 def step (s : St) (line : String) : IO St := do
